@@ -104,7 +104,18 @@ func (d lfDoc) build(pool *KeyPool) (*docdid.Doc, error) {
 	}
 
 	for i, u := range d.svcs {
-		doc.Service = append(doc.Service, docdid.Service{ID: fmt.Sprintf("svc-%d", i+1), Type: fmt.Sprintf("Type%d", i+1), ServiceEndpoint: endpoint.NewDIDCommV1Endpoint(u)})
+		svc := docdid.Service{ID: fmt.Sprintf("svc-%d", i+1), Type: fmt.Sprintf("Type%d", i+1), ServiceEndpoint: endpoint.NewDIDCommV1Endpoint(u)}
+
+		// the first service of a multi-key document carries the optional members and a property of its own
+		if i == 0 && len(d.keys) > 1 {
+			svc.Priority = 7
+			svc.RecipientKeys = []string{"did:example:123#recipient"}
+			svc.RoutingKeys = []string{"did:example:123#routing"}
+			svc.Accept = []string{"didcomm/v2"}
+			svc.Properties = map[string]interface{}{"custom": "v"}
+		}
+
+		doc.Service = append(doc.Service, svc)
 	}
 
 	doc.AlsoKnownAs = d.aka
@@ -167,7 +178,15 @@ func summarize(raw map[string]interface{}) lfSummary {
 			m, _ := x.(map[string]interface{})
 			id, _ := m["id"].(string)
 			ep, _ := json.Marshal(m["serviceEndpoint"])
-			s.Svcs = append(s.Svcs, fmt.Sprintf("%s|%v|%s", frag(id), m["type"], ep))
+
+			rest := map[string]interface{}{}
+			for k, v := range m {
+				if k != "id" && k != "type" && k != "serviceEndpoint" {
+					rest[k] = v
+				}
+			}
+
+			s.Svcs = append(s.Svcs, fmt.Sprintf("%s|%v|%s|%s", frag(id), m["type"], ep, refJCSSimple(rest)))
 		}
 	}
 
@@ -197,7 +216,14 @@ func (d lfDoc) expected(pool *KeyPool, id string) lfSummary {
 
 	for i, u := range d.svcs {
 		ep, _ := json.Marshal(u)
-		s.Svcs = append(s.Svcs, fmt.Sprintf("svc-%d|Type%d|%s", i+1, i+1, ep))
+
+		rest := map[string]interface{}{}
+		if i == 0 && len(d.keys) > 1 {
+			rest = map[string]interface{}{"priority": 7, "recipientKeys": []string{"did:example:123#recipient"},
+				"routingKeys": []string{"did:example:123#routing"}, "accept": []string{"didcomm/v2"}, "custom": "v"}
+		}
+
+		s.Svcs = append(s.Svcs, fmt.Sprintf("svc-%d|Type%d|%s|%s", i+1, i+1, ep, refJCSSimple(rest)))
 	}
 
 	s.Aka = d.aka
@@ -219,6 +245,16 @@ func longformReplay(args []string) {
 	}
 
 	handler, err := dochandler.New("did:ion")
+	if err != nil {
+		fatalf("dochandler: %v", err)
+	}
+
+	vdr3, err := sidetreelongform.New(sidetreelongform.WithDIDMethod("ion:test"))
+	if err != nil {
+		fatalf("vdr: %v", err)
+	}
+
+	handler3, err := dochandler.New("did:ion:test")
 	if err != nil {
 		fatalf("dochandler: %v", err)
 	}
@@ -288,7 +324,15 @@ func longformReplay(args []string) {
 		upd := pool.Get("ed", fmt.Sprintf("lf-upd-%d", keys)).Pub.(ed25519.PublicKey)
 		rec := pool.Get("ed", fmt.Sprintf("lf-rec-%d", keys)).Pub.(ed25519.PublicKey)
 
-		return vdr.Create(d, vdrapi.WithOption(sidetreelongform.UpdatePublicKeyOpt, upd), vdrapi.WithOption(sidetreelongform.RecoveryPublicKeyOpt, rec))
+		before := lfDocDigest(d)
+		res, cerr := vdr.Create(d, vdrapi.WithOption(sidetreelongform.UpdatePublicKeyOpt, upd), vdrapi.WithOption(sidetreelongform.RecoveryPublicKeyOpt, rec))
+
+		// the caller's document is the caller's: what was supplied stays what it was
+		if after := lfDocDigest(d); after != before && cerr == nil {
+			return nil, fmt.Errorf("VDR.Create changed the document it was given: %s -> %s", before, after)
+		}
+
+		return res, cerr
 	}
 
 	readTagged(os.Stdin, "CASE", fl.str("tlclog", ""), func(line []byte) {
@@ -388,6 +432,33 @@ func longformReplay(args []string) {
 
 			if !check("created", res) {
 				return
+			}
+
+			// the same document under a method whose namespace has three segments (did:ion:test): created, it resolves
+			if c.Call == 1 {
+				d3, _ := lfDocs[c.Doc].build(pool)
+				upd := pool.Get("ed", fmt.Sprintf("lf-upd-%d", c.Keys)).Pub.(ed25519.PublicKey)
+				rec := pool.Get("ed", fmt.Sprintf("lf-rec-%d", c.Keys)).Pub.(ed25519.PublicKey)
+
+				r3, e3 := vdr3.Create(d3, vdrapi.WithOption(sidetreelongform.UpdatePublicKeyOpt, upd), vdrapi.WithOption(sidetreelongform.RecoveryPublicKeyOpt, rec))
+				if e3 != nil || !strings.HasPrefix(r3.DIDDocument.ID, "did:ion:test:") || strings.Count(r3.DIDDocument.ID, ":") != 4 {
+					fail("create-error", "namespace did:ion:test: "+fmt.Sprint(e3), "did:ion:test:<suffix>:<state>", r3)
+					return
+				}
+
+				did3 := r3.DIDDocument.ID
+				if rd3, e := vdr3.Read(did3); e != nil || rd3.DIDDocument.ID != did3 {
+					fail("read-error", "namespace did:ion:test: "+fmt.Sprint(e), did3, nil)
+					return
+				}
+
+				if rr3, e := handler3.ResolveDocument(did3); e != nil || rr3.Document.ID() != did3 {
+					fail("read-error", "handler for did:ion:test: "+fmt.Sprint(e), did3, nil)
+					return
+				}
+
+				// (whether the did:ion handler also resolves did:ion:test:<suffix>:<state> - it does: the DID begins
+				// with its namespace and ends with a matching suffix and state - is not excluded by the statement)
 			}
 
 			rd, err := vdr.Read(did)
@@ -642,4 +713,16 @@ func longformReplay(args []string) {
 
 	col.sum.Extra["single_character_changes"] = singleChar
 	col.finish()
+}
+
+// lfDocDigest: everything of a supplied document that Create could write into.
+func lfDocDigest(d *docdid.Doc) string {
+	raw, _ := d.JSONBytes()
+
+	var props []interface{}
+	for i := range d.Service {
+		props = append(props, d.Service[i].Properties, d.Service[i].Priority, d.Service[i].RecipientKeys, d.Service[i].RoutingKeys, d.Service[i].Accept)
+	}
+
+	return digestJSON([]interface{}{json.RawMessage(raw), props})
 }
